@@ -295,6 +295,10 @@ pub use std::sync::Once;
 // Required for `Once` in `no_std` builds.
 pub(crate) mod spin;
 
+#[cfg(all(tokio_rs_tracing_verif, feature = "std"))]
+#[doc(hidden)]
+#[path = "verif.rs"]
+pub mod __verif;
 pub mod callsite;
 pub mod collect;
 pub mod dispatch;
@@ -303,10 +307,6 @@ pub mod field;
 pub mod metadata;
 mod parent;
 pub mod span;
-#[cfg(all(tokio_rs_tracing_verif, feature = "std"))]
-#[doc(hidden)]
-#[path = "verif.rs"]
-pub mod __verif;
 
 #[doc(inline)]
 pub use self::{
